@@ -46,7 +46,7 @@ package core
 //   - root.Request = sum of the max-limited requests of its children including system and default.
 //
 // Signatures. Every mismatch between a reported figure and the recomputation is a violation
-// "C01/<figure>/mismatch" that ends the case, except three that get a narrow signature because their
+// "C01/<figure>/mismatch" that ends the case, except five that get a narrow signature because their
 // cause is established (see the report of this harness and /verif/out/proposed-fixes/C01-*.diff):
 //
 //   - C01/request/old-ancestor-after-detaching-max-limited-child: request/child-request of an OLD
@@ -62,6 +62,9 @@ package core
 //     quota exists the plugin routes the pod's events by the label, so an update adds the pod to its
 //     quota while the default group still counts it (and the periodic MigratePod then adds it once
 //     more), a delete leaves it in the default group for good, a reserve/unreserve is lost.
+//
+//   - C01/same-pod/reserve-or-unreserve-after-resize-books-scheduler-copy and
+//     C01/same-pod/unreserve-after-bind-echo-unassigns-bound-pod: see c01_samepod_test.go.
 //
 // (The first two were fixed in /repo by 69e1989 and 6b1d919; the classification stays, it costs
 // nothing on a tree where they do not fire.)
